@@ -479,6 +479,9 @@ class Interp:
             c = self.fb.consts[o["named"]]
             bits = int(c["bits"]) if c.get("bits") is not None else None
             s_ = c.get("str")
+        if o.get("static") and bits is None and s_ is None:
+            # `&STATIC_ITEM`: shown by the item's path
+            return App("static", [Const("path", None, None, o["static"], o["static"])])
         return Const(o["ty"], bits, s_, o.get("text"), o.get("named"))
 
     def eval_promoted(self, key):
